@@ -562,7 +562,7 @@ class Interp(object):
                 return C1
             return B.atom_bit(B.atom('tokeq', tuple(sorted([a.name, b.name]))))
         if isinstance(a, Tok) or isinstance(b, Tok):
-            return B.atom_bit(B.atom('tokeq2', (repr(a), repr(b)), payload=(a, b), deps=self.deps_of(a) | self.deps_of(b)))
+            return B.atom_bit(B.atom('tokeq2', (a, b), payload=(a, b), deps=self.deps_of(a) | self.deps_of(b)))
         return None
 
     def first_set(self, bv, w):
